@@ -21,7 +21,7 @@ VERUS_DIR = os.path.join(VERIF, 'verus')
 
 def parse_spec(path):
     """sections introduced by lines starting with '@'"""
-    secs = {'contract': '', 'loops': {}, 'never_loop': None, 'to_string': [], 'proofs': [], 'subst': [], 'prologue': ''}
+    secs = {'contract': '', 'loops': {}, 'never_loop': None, 'to_string': [], 'proofs': [], 'subst': [], 'prologue': '', 'drop_enumerate': []}
     if not os.path.exists(path):
         raise X.LostAnchor('contract file missing: ' + path)
     cur = None
@@ -37,6 +37,8 @@ def parse_spec(path):
         arg = head[1] if len(head) > 1 else ''
         if kind == '@contract':
             secs['contract'] = text
+        elif kind == '@drop_enumerate':
+            secs['drop_enumerate'].append(arg.strip())
         elif kind == '@prologue':
             secs['prologue'] = text
         elif kind == '@loop':
@@ -167,13 +169,13 @@ class GroupBuild:
         self.parts.append(('impl', None, title or header_pat, new.strip() + '\n'))
         self.listing.append('### impl /%s/ (%s)\n%s\n%s\n' % (header_pat, rel, '\n'.join('  - ' + l for l in log), X.listing(orig, new, header_pat)))
 
-    def fn(self, unit, rel, name, spec=None, impl=None, nth=0, stub=False, wrap_impl=None, props=(), resname='res'):
+    def fn(self, unit, rel, name, spec=None, impl=None, nth=0, stub=False, wrap_impl=None, props=(), resname='res', assumed_as=()):
         secs = parse_spec(os.path.join(VERUS_DIR, 'contracts', spec)) if spec else {
-            'contract': '', 'loops': {}, 'never_loop': None, 'to_string': [], 'proofs': [], 'subst': [], 'prologue': ''}
+            'contract': '', 'loops': {}, 'never_loop': None, 'to_string': [], 'proofs': [], 'subst': [], 'prologue': '', 'drop_enumerate': []}
         log = []
         orig, new = X.emit_fn(self.src(rel), name, impl=impl, nth=nth, contract=secs['contract'],
                               loops=secs['loops'], never_loop=secs['never_loop'], to_string=secs['to_string'],
-                              proofs=secs['proofs'], prologue=secs['prologue'], stub=stub, wrap_impl=wrap_impl, log=log,
+                              proofs=secs['proofs'], prologue=secs['prologue'], drop_enumerate=secs.get('drop_enumerate'), stub=stub, wrap_impl=wrap_impl, log=log,
                               subst=secs['subst'], resname=resname)
         kind = 'stub' if stub else 'fn'
         self.parts.append((kind, unit, '%s::%s' % (rel, name), new))
@@ -184,6 +186,24 @@ class GroupBuild:
         self.listing.append('### %s %s (%s)%s\n%s\n%s\n' % (
             'callee contract (R5, body not verified here)' if stub else 'function under contract', name, rel,
             ' unit=' + unit if unit else '', '\n'.join('  - ' + l for l in log), X.listing(orig, new, name)))
+        # modular soundness guard: wherever this function is ASSUMED under another contract file (R5 stub in another group),
+        # the contract proved here must imply it: a wrapper with the assumed contract whose body just calls the unit
+        for k_as, other in enumerate(assumed_as):
+            osecs = parse_spec(os.path.join(VERUS_DIR, 'contracts', other))
+            ol = []
+            oorig, onew = X.emit_fn(self.src(rel), name, impl=impl, nth=nth, contract=osecs['contract'], stub=True, wrap_impl=None, log=ol, resname=resname)
+            w = self.canary(onew, name, True, None)
+            if w:
+                w = w.replace(name + '__canary', '%s__as_assumed_%d' % (name, k_as)).replace('assert(false); ', '')
+                # re-attach the ensures of the assumed contract
+                m = re.search(r'\n\s*ensures\b', onew)
+                if m:
+                    ens = onew[m.start():onew.rindex('{ unimplemented!() }')]
+                    body_at = w.rindex('{ let r =')
+                    w = w[:body_at].rstrip() + ens.rstrip() + '\n' + w[body_at:]
+                if wrap_impl:
+                    w = wrap_impl + ' {\n' + w + '}\n'
+                self.parts.append(('fn', unit, '%s::%s (assumed elsewhere as %s)' % (rel, name, other), w))
         cc = count_clauses(secs['contract'])
         for k, v in secs['loops'].items():
             c2 = count_clauses(v)
